@@ -92,6 +92,16 @@ let () =
             let f = (match next () with "bls" -> bls_scalar_from_bytes | _ -> ed_scalar_from_bytes) in
             let bs = (match !toks with [] -> [] | _ -> bytes_of_hex (next ())) in
             (match f bs with None -> "None" | Some v -> hex_of_n v)
+        | "g1dec" ->
+            let bs = (match !toks with [] -> [] | _ -> bytes_of_hex (next ())) in
+            (match g1_decode bs with
+             | None -> "None"
+             | Some G1Inf -> "inf"
+             | Some (G1Aff (x, y)) -> hex_of_n x ^ " " ^ hex_of_n y)
+        | "g1enc" ->
+            (match next () with
+             | "inf" -> hex_of_bytes (g1_encode G1Inf)
+             | xs -> let x = n_of_hex xs in let y = n_of_hex (next ()) in hex_of_bytes (g1_encode (G1Aff (x, y))))
         | "keygen" ->
             (match keygen_round (bytes_of_hex (next ())) with None -> "None" | Some v -> hex_of_n v)
         | "path" ->
